@@ -109,7 +109,70 @@ def gen_case(rng, backend, realtime, big_ok=True, nops=None):
             ops.append({"op": "regaddr", "n": node, "id": rng.choice(nids), "addr": hexs(rand_str(rng))})
         else:
             ops.append({"op": "getaddr", "n": node, "id": rng.choice(nids)})
+    if backend in VIRTUAL and rng.random() < 0.5:
+        # single-call outages of the shared tier at random storage call positions
+        for op in ops:
+            if op["op"] in ("reg", "look", "rem", "regaddr", "getaddr") and rng.random() < 0.12:
+                op["fault"] = True
     return {"backend": backend, "ttl_ms": ttl, "nodes": nodes, "ops": ops, "stream": "valid"}
+
+
+def fault_directed():
+    """the shared tier (miniredis) fails for exactly one call, at each storage call position of register / remove / lookup /
+    node address; then the usual end of the tunnel and late lookups from every node"""
+    out = []
+    t = hexs("tun-fault")
+    r = {"tunnel": t, "mapping": hexs("pm_1"), "secret": hexs("k"), "node": hexs("node-0"), "src": 2 ** 53 + 1, "dst": 2, "host": hexs("10.1.1.1"), "port": 22}
+    nid, a = hexs("node-0"), hexs("10.0.0.1:50052")
+    L = lambda n, **kw: dict({"op": "look", "n": n, "tid": t}, **kw)
+    for b in VIRTUAL:
+        for nodes in (2, 3):
+            allnodes = [L(n) for n in range(nodes)]
+            hist = [
+                # outage during RegisterWaitingTunnel: reported, not routable anywhere, tunnel "ends", late lookups everywhere
+                [{"op": "reg", "n": 0, "rec": r, "fault": True}] + allnodes + [{"op": "rem", "n": 0, "tid": t}] + allnodes,
+                # outage during a lookup: reported; the next lookup is fine; end; gone everywhere
+                [{"op": "reg", "n": 0, "rec": r}, L(1, fault=True), L(0, fault=True)] + allnodes + [{"op": "rem", "n": 0, "tid": t}] + allnodes,
+                # re-registration of a waiting id during an outage: the old record stays routable, then end
+                [{"op": "reg", "n": 0, "rec": r}, {"op": "reg", "n": 1, "rec": dict(r, node=hexs("node-1"), host=hexs("other")), "fault": True}] + allnodes
+                + [{"op": "rem", "n": 1, "tid": t}] + allnodes,
+                # outage during RemoveWaitingTunnel (known finding: the failed Delete is swallowed), then a working removal
+                [{"op": "reg", "n": 0, "rec": r}, {"op": "rem", "n": 0, "tid": t, "fault": True}] + allnodes + [{"op": "rem", "n": 1, "tid": t}] + allnodes,
+                # node address: outage during register / read / refresh
+                [{"op": "regaddr", "n": 0, "id": nid, "addr": a, "fault": True}, {"op": "getaddr", "n": 1, "id": nid},
+                 {"op": "regaddr", "n": 0, "id": nid, "addr": a}, {"op": "getaddr", "n": 1, "id": nid, "fault": True}, {"op": "getaddr", "n": 1, "id": nid},
+                 {"op": "ff", "d": 3599001}, {"op": "regaddr", "n": 0, "id": nid, "addr": a, "fault": True}, {"op": "ff", "d": 82800001},
+                 {"op": "getaddr", "n": 1, "id": nid}, {"op": "ff", "d": 3600001}, {"op": "getaddr", "n": 1, "id": nid}],
+            ]
+            for ops in hist:
+                out.append({"backend": b, "ttl_ms": 0, "nodes": nodes, "ops": json.loads(json.dumps(ops)), "stream": "valid"})
+    return out
+
+
+def forward_cases(rng, thorough):
+    """where a forward is dialled: node-a's address is one of three live listeners; 'addr' re-registers it (from either node),
+    'fwd' lets a fresh tunnel wait on node-a and runs the REAL target-side path on node-b, 'ff' lets backend time pass"""
+    out = []
+    base = [{"op": "addr", "n": 0, "k": 0}, {"op": "fwd"}, {"op": "fwd"}, {"op": "addr", "n": 0, "k": 1}, {"op": "fwd"},
+            {"op": "addr", "n": 1, "k": 2}, {"op": "fwd"}, {"op": "ff", "d": 3599001}, {"op": "addr", "n": 0, "k": 2}, {"op": "fwd"},
+            {"op": "addr", "n": 0, "k": 0}, {"op": "fwd"}]
+    for b in ("memory", "redis", "hybrid", "hybridone"):
+        out.append({"backend": b, "ttl_ms": 0, "stream": "forward", "ops": base})
+    out.append({"backend": "redis", "ttl_ms": 0, "stream": "forward",
+                "ops": [{"op": "addr", "n": 0, "k": 1}, {"op": "fwd"}, {"op": "ff", "d": 86400011}, {"op": "fwd"}, {"op": "addr", "n": 0, "k": 2}, {"op": "fwd"}]})
+    for i in range(12 if thorough else 3):
+        ops = [{"op": "addr", "n": 0, "k": rng.randrange(3)}]
+        for _ in range(rng.randrange(4, 9)):
+            k = rng.random()
+            if k < 0.4:
+                ops.append({"op": "addr", "n": rng.randrange(2), "k": rng.randrange(3)})
+            elif k < 0.9:
+                ops.append({"op": "fwd"})
+            else:
+                ops.append({"op": "ff", "d": rng.choice([3599001, 43200001])})
+        ops.append({"op": "fwd"})
+        out.append({"backend": ("memory", "redis", "hybrid", "hybridone")[i % 4], "ttl_ms": 0, "stream": "forward", "ops": ops})
+    return out
 
 
 def directed_cases(rng):
@@ -311,11 +374,33 @@ def rec10(r):
 LOOK_CODE = {"ok": 0, "notfound": 1, "expired": 2, "invalid": 3, "err": 4}
 
 
+def inner_value(op, ob):
+    """one observed call in the op format of Corr/C09.v (used for calls made while the shared tier failed)"""
+    hb = bytes.fromhex
+    k = op["op"]
+    if k == "reg":
+        obs = [0, rec10(ob["rec"])] if ob["res"] == "ok" else [3 if ob["res"] == "invalid" else 4]
+        created = ob["rec"]["created"] if ob["res"] == "ok" else ob["t0"]
+        return [1, op["n"], rec8(op["rec"]), max(created, 0), obs]
+    if k == "look":
+        obs = [0, rec10(ob["rec"])] if ob["res"] == "ok" else [LOOK_CODE[ob["res"]]]
+        return [2, op["n"], hb(op["tid"]), max(ob["t0"], 0), max(ob["t1"], 0), obs]
+    if k == "rem":
+        return [3, op["n"], hb(op["tid"]), max(ob["t0"], 0), [0 if ob["res"] == "ok" else 3 if ob["res"] == "invalid" else 4]]
+    if k == "regaddr":
+        return [5, op["n"], hb(op["id"]), hb(op["addr"]), max(ob["t0"], 0)]
+    obs = [0, hb(ob["addr"])] if ob["res"] == "ok" else [1 if ob["res"] == "notfound" else 2]
+    return [6, op["n"], hb(op["id"]), max(ob["t0"], 0), obs]
+
+
 def case_value(c, o):
     hb = bytes.fromhex
     ops = []
     for op, ob in zip(c["ops"], o["obs"]):
         k = op["op"]
+        if ob.get("fault") and k in ("reg", "look", "rem", "regaddr", "getaddr"):
+            ops.append([7, inner_value(op, ob)])   # the shared tier failed during this call
+            continue
         if k == "reg":
             obs = [0, rec10(ob["rec"])] if ob["res"] == "ok" else [3 if ob["res"] == "invalid" else 4]
             created = ob["rec"]["created"] if ob["res"] == "ok" else ob["t0"]
@@ -406,12 +491,12 @@ def run(ctx, only_cases=None, only_probes=None):
     if only_cases is not None:
         cases = only_cases
         probes, invalid = list(only_probes or []), []
-        bridges = [p for p in probes if p.get("stream") == "bridge"]
+        bridges = [p for p in probes if p.get("stream") in ("bridge", "forward")]
         concs = [p for p in probes if p.get("stream") in ("conc", "sweep") and p.get("way") != "gated"]
         gated = [p for p in probes if p.get("stream") == "conc" and p.get("way") == "gated"]
-        probes = [p for p in probes if p.get("stream") not in ("bridge", "conc", "sweep")]
+        probes = [p for p in probes if p.get("stream") not in ("bridge", "forward", "conc", "sweep")]
     else:
-        cases = load_corpus() + directed_cases(rng)
+        cases = load_corpus() + directed_cases(rng) + fault_directed()
         n_virtual = 3000 if thorough else 220
         n_real = 1500 if thorough else 110
         for i in range(n_virtual):
@@ -421,6 +506,7 @@ def run(ctx, only_cases=None, only_probes=None):
         cases += addr_directed(rng) + addr_random(rng, 400 if thorough else 40)
         cases += poll_cases(rng, 24 if thorough else 6)
         bridges = bridge_cases(rng, thorough)
+        bridges += forward_cases(rng, thorough)
         concs, gated = conc_cases(rng, thorough)
         concs += sweep_cases(rng, thorough)
         invalid = invalid_cases(rng, 120 if thorough else 30)
@@ -457,8 +543,10 @@ def run(ctx, only_cases=None, only_probes=None):
         if key in reported or len(reported) >= 4:
             continue
         reported.add(key)
-        ctx.violation(key, "real SessionManager.startSourceBridge/runBridgeLifecycle with the routing table on %s: %s (events: %s)"
-                      % (c["backend"], o.get("prop_msg"), "; ".join(o.get("events", []))), {"probe": c, "observed": o})
+        what = ("real SessionManager.handleCrossNodeTargetConnection/forwardToSourceNode + TunnelConnectionManager" if c["stream"] == "forward"
+                else "real SessionManager.startSourceBridge/runBridgeLifecycle with the routing table")
+        ctx.violation(key, "%s on %s: %s (events: %s)" % (what, c["backend"], o.get("prop_msg"), "; ".join(o.get("events", []))),
+                      {"probe": c, "observed": o})
 
     # (iii-c) concurrency at storage-call granularity: concurrent registrations, sweep racing a re-registration
     conc_out = vlib.run_harness(binary, concs, timeout=900) if concs else []
@@ -525,6 +613,12 @@ def run(ctx, only_cases=None, only_probes=None):
             d["keys"][o["prop_key"]] = d["keys"].get(o["prop_key"], 0) + 1
             d.setdefault("example", {"field": c["field"], "bytes": c["ops"][0]["rec"][c["field"]], "message": o["prop_msg"][:300]})
     probe_rep = {}
+    if only_cases is None:
+        lp = vlib.run_harness(binary, [{"backend": "memory", "ttl_ms": 0, "stream": "forward", "way": "legacypool",
+                                        "ops": [{"op": "addr", "n": 0, "k": 0}, {"op": "fwd"}, {"op": "addr", "n": 0, "k": 1}, {"op": "fwd"}]}])[0]
+        probe_rep["legacy_CrossNodePool_fallback_of_forwardToSourceNode"] = {
+            "dialled_listeners": lp["dials"], "registered_listeners": lp["want"], "follows_address_change": lp["prop_ok"],
+            "note": "only used when no TunnelConnectionManager is installed; the server always installs one (components_session.go)"}
     for p in probe_out:
         if p["backend"] == "race":
             probe_rep["schedule_probe_lookup_Get_Delete_window"] = {
@@ -561,7 +655,7 @@ def run(ctx, only_cases=None, only_probes=None):
         d_["sweep_overlapped"] += 1 if o.get("overlap") else 0
         d_["concurrent_registrations"] += len(c.get("recs", [])) if c["stream"] == "conc" else 0
     for c, o in zip(bridges, bridge_out):
-        k = "%s/%s" % (c["backend"], c["way"])
+        k = "%s/%s" % (c["backend"], c.get("way") or c["stream"])
         dist["bridge_lifecycle_cases"][k] = dist["bridge_lifecycle_cases"].get(k, 0) + 1
     for c, o in zip(cases, outs):
         seen = set()
@@ -604,7 +698,9 @@ def run(ctx, only_cases=None, only_probes=None):
     ctx.coverage.update({
         "evaluations": len(cases) + len(invalid) + len(probes) + len(bridges) + len(concs), "distinct_nontrivial": len(nontrivial),
         "bridge_lifecycle_failures": nbridge_fail, "concurrency_failures": nconc_fail,
-        "bridge_lifecycle_samples": [{"backend": c["backend"], "way": c["way"], "events": o["events"]} for c, o in list(zip(bridges, bridge_out))[:6]],
+        "bridge_lifecycle_samples": [{"backend": c["backend"], "way": c.get("way") or c["stream"], "events": o["events"]} for c, o in list(zip(bridges, bridge_out))[:6]],
+        "forwards_judged": sum(o["judged"] for c, o in zip(bridges, bridge_out) if c["stream"] == "forward"),
+        "calls_with_injected_shared_tier_fault": sum(1 for c, o in zip(cases, outs) for ob in o["obs"] if ob.get("fault")),
         "rule": "histories of register/lookup/remove/expire (+node-address) operations over 3 tunnel ids and 2-3 RoutingTable "
                 "instances generated from VERIF_SEED by one PRNG (corpus and directed histories first), each run on the real "
                 "RoutingTable over one of six backend configurations; distinct = distinct case JSON; non-trivial = at least one "
@@ -627,7 +723,7 @@ def run(ctx, only_cases=None, only_probes=None):
         "(function keep); miniredis stands for Redis (virtual TTL clock)",
         "one RoutingTable call is one atomic step (Get and the Delete of an expired record are not interleaved with other nodes' calls)",
         "wall-clock and monotonic readings of time.Now agree within 5 ms over one history (guard band of the timing classification)",
-        "storage errors (Redis down) are not modelled: the backends of the run do not fail",
+        "storage failures: only single-call outages of the shared tier are modelled and injected (miniredis SetError around one call)",
         "atomic step of the schedule theorems = one storage call: Storage.Set stores the encoding of the value handed to that call, "
         "memory.Storage.CleanupExpired tests and deletes in one critical section (obligations checked on the real backends by the "
         "conc / sweep streams, not proved about Go)",
